@@ -107,6 +107,11 @@ def run_scenarios(ctx, scenarios, name, shards=None):
         o_, e = p.communicate(timeout=3000)
         if p.returncode == 5:
             ctx.partial = "a library call did not return within the per-recipe deadline; the rest of that shard was skipped"
+            try:
+                idx = json.loads([l for l in (o if False else o_).strip().split("\n") if l.startswith("{")][-1]).get("timeout")
+                ctx.partial += " (scenario %s: %s)" % (idx, json.dumps(scenarios[idx])[:400])
+            except Exception:
+                pass
         elif p.returncode != 0:
             raise Undecided("wltree driver failed: " + (e or o_)[-1500:])
         last = [l for l in o_.strip().split("\n") if l.startswith("{")]
@@ -192,3 +197,39 @@ def c13_part(ctx, rng, quick):
     ctx.evaluations += leaves
     ctx.cover.update(wl_cells=cells, wl_generate_runs=leaves)
     ctx.absorb(verdicts, files, describe_wl)
+
+
+def line_scen(words, L, cap, sep, line, tag):
+    wl = dict(words=[o(w) for w in words], nolist=0, len=L, cap=cap)
+    wl.update(sep)
+    return dict(kind="wl", wl=wl, maxTrials=0, failRateOne=0, mode="line", line=line, paths=0, maxLeaves=0, tag=tag, reps=0)
+
+
+def line_scenarios(rng, quick, shipped=None):
+    """Complete lines: every value of one draw, all other draws fixed - long passwords (capital position / coin of a late word),
+    a large list (every word index), a sparse-capitalisable list; thorough: every index of both shipped lists."""
+    hy = dict(sep="char", sepChar=o("-"))
+    base = ["one", "two", "three", "zebra", "kettő"]
+    out = []
+    for L in ((65, 80) if quick else (64, 65, 80, 128, 200)):
+        out.append(line_scen(base, L, "one", hy, 0, "line-one-position"))
+        out.append(line_scen(base, L, "random", hy, L - 1, "line-random-last-coin"))
+        out.append(line_scen(base, L, "random", hy, 64 if L > 64 else L - 2, "line-random-coin-64"))
+        out.append(line_scen(base, L, "all", hy, L + 3 if False else 3, "line-all-word"))
+    big = ["w%da" % i if i % 7 else "v-%d-x" % i for i in range(600)] + ["alpha", "omega", "größe", "ñandú", "o'neil", "ice-cream"]
+    out.append(line_scen(big, 2, "first", dict(sep="SFDigits1", sepChar=[]), 0, "line-606-words"))
+    out.append(line_scen(big, 3, "one", hy, 2, "line-606-words-second"))
+    sparse = [str(1000 + i) for i in range(150)] + ["alpha"]
+    out.append(line_scen(sparse, 1, "all", hy, 0, "line-sparse-capitalisable"))
+    out.append(line_scen(sparse, 2, "first", hy, 0, "line-sparse-capitalisable"))
+    if shipped:
+        for name, ws in shipped.items():
+            out.append(line_scen(ws, 2, "none", hy, 0, "line-shipped-" + name))
+            out.append(line_scen(ws, 2, "all", dict(sep="SFDigits1", sepChar=[]), 1, "line-shipped-%s-second-word" % name))
+    return out
+
+
+def shipped_lists(ctx):
+    aux = ctx.path("aux-lists.ndjson")
+    ctx.drv("lists", "-out", aux)
+    return {e["name"]: ["".join(chr(c) for c in w) for w in e["words"]] for e in vlib.read_ndjson(aux)}
